@@ -148,10 +148,13 @@ def _run_case(case):
                             mean = y.mean(red)
                             var_b = y.var(red, unbiased=False)
                             t0 = 1e-8 if TOL < 1e-6 else 5e-3
-                            ok_var = bool(((var_b - 1).abs() < t0).all()) or bool(((var_b * n_per / (n_per - 1) - 1).abs() < t0).all())
-                            # float32: outputs are scale*x + shift with |scale*x| up to amp, so their mean carries ~amp*2^-23 noise
+                            # outputs are scale*x + shift with |scale*x| up to amp, so their mean carries ~amp*u noise and their
+                            # variance twice that, relatively (two rows that happen to differ by 1e-6 at offset 300: amp = 3e8)
                             amp = float(xd.abs().max()) * float(torch.exp(subj.state_dict()["log_scale"].double()).max())
-                            if float(mean.abs().max()) > t0 + (0 if TOL < 1e-6 else 16 * 2.0 ** -23 * amp) or not ok_var:
+                            noise = 16 * (2.0 ** -52 if TOL < 1e-6 else 2.0 ** -23) * amp
+                            tv = t0 + (4 * noise if TOL < 1e-6 else 0.0)
+                            ok_var = bool(((var_b - 1).abs() < tv).all()) or bool(((var_b * n_per / (n_per - 1) - 1).abs() < tv).all())
+                            if float(mean.abs().max()) > t0 + noise or not ok_var:
                                 res.fail("actnorm_init", site, "first training forward: outputs have mean %s, biased variance %s (history %s)" % (
                                     mean.tolist(), var_b.tolist(), hist))
                                 return res
